@@ -1644,6 +1644,12 @@ impl DistributedTxCoordinator {
             }
         }
 
+        // Whatever the transaction still holds under a handle no recorded vote
+        // carries (a repeated prepare re-locks under a new handle) and any wait
+        // edge of a transaction that never got a lock end with it.
+        self.lock_manager.release(tx_id);
+        self.wait_graph.remove_transaction(tx_id);
+
         // Mark all locks released
         let _ = self.log_wal_entry(&TxWalEntry::AllLocksReleased { tx_id });
 
@@ -1685,6 +1691,12 @@ impl DistributedTxCoordinator {
             }
         }
 
+        // Whatever the transaction still holds under a handle no recorded vote
+        // carries (a repeated prepare re-locks under a new handle) and any wait
+        // edge of a transaction that never got a lock end with it.
+        self.lock_manager.release(tx_id);
+        self.wait_graph.remove_transaction(tx_id);
+
         tx.phase = TxPhase::Committed;
         self.stats.committed.fetch_add(1, Ordering::Relaxed);
 
@@ -1719,6 +1731,12 @@ impl DistributedTxCoordinator {
                     .release_by_handle_with_wait_cleanup(*lock_handle, &self.wait_graph);
             }
         }
+
+        // Whatever the transaction still holds under a handle no recorded vote
+        // carries (a repeated prepare re-locks under a new handle) and any wait
+        // edge of a transaction that never got a lock end with it.
+        self.lock_manager.release(tx_id);
+        self.wait_graph.remove_transaction(tx_id);
 
         tx.phase = TxPhase::Aborted;
         self.stats.aborted.fetch_add(1, Ordering::Relaxed);
@@ -1776,6 +1794,12 @@ impl DistributedTxCoordinator {
             }
         }
 
+        // Whatever the transaction still holds under a handle no recorded vote
+        // carries (a repeated prepare re-locks under a new handle) and any wait
+        // edge of a transaction that never got a lock end with it.
+        self.lock_manager.release(tx_id);
+        self.wait_graph.remove_transaction(tx_id);
+
         tx.phase = TxPhase::Aborted;
         self.stats.aborted.fetch_add(1, Ordering::Relaxed);
 
@@ -1826,6 +1850,8 @@ impl DistributedTxCoordinator {
                             .release_by_handle_with_wait_cleanup(*lock_handle, &self.wait_graph);
                     }
                 }
+                self.lock_manager.release(*tx_id);
+                self.wait_graph.remove_transaction(*tx_id);
                 self.stats.timed_out.fetch_add(1, Ordering::Relaxed);
             }
         }
